@@ -2,6 +2,7 @@
   C02  Only IdP-issued, validated tokens are bound to a session and forwarded.
   Oracles: `attrs` (jwt.Parse), `sigOK` (jws.Verify with the configured key set). The theorems hold for every oracle.
 -/
+import AuthProofs.StateInventory
 import AuthProofs.Ladder
 import AuthProofs.CodeEquivOidc
 namespace AuthProps.C02
@@ -90,6 +91,9 @@ theorem code_forwarded_headers (env : Go.Env) (o : Pb.OidcHandler) (t : Pb.Token
 example : Code.encodeTokensToHeaders {} { config := { IdToken := { isNil := false, Header := B "authorization", Preamble := B "Bearer" } } }
     { IDToken := B "tok" } = .ok [(B "authorization", B "Bearer tok")] := by decide
 
+/-- NO HIDDEN STATE: the model treats a check as a function of (configuration, request, store answers, clock, IdP and key-source answers, entropy); that is a faithful reading of the code only if nothing else survives from one check to the next. Regenerated on every run: every package-level variable and struct field of internal/server, internal/authz, internal/http, internal/oidc is the classified expectation, and handlers, filter, HTTP helpers and the Redis store own no mutable state (no verdict cache, handler cache, object pool, single-flight group or per-process copy of session data). -/
+theorem no_hidden_state : CheckPathInventory := check_path_inventory
+
 end AuthProps.C02
 
 #print axioms AuthProps.C02.bound_only_validated
@@ -100,3 +104,4 @@ end AuthProps.C02
 #print axioms AuthProps.C02.same_header_drops_id
 #print axioms AuthProps.C02.ok_headers
 #print axioms AuthProps.C02.code_forwarded_headers
+#print axioms AuthProps.C02.no_hidden_state
